@@ -262,3 +262,116 @@ Proof.
     split; [exact Es|]. split; [reflexivity|]. split; [reflexivity|]. split; [|exact Ep].
     unfold pre. cbn [s_sh]. f_equal. f_equal. ring.
 Qed.
+
+(* ---------------------------------------------------------------- all generated sales *)
+Lemma tot_sh_nonneg0 l : Forall ah_ok l -> 0 <= tot_sh l.
+Proof. induction 1 as [|z l (Hz & _) Hl IH]; cbn [tot_sh]; qc_lra. Qed.
+Lemma sh_le_tot0 l : Forall ah_ok l -> forall h, In h l -> ah_sh h <= tot_sh l.
+Proof.
+  induction 1 as [|y l Hy Hl IH]; intros h Hin; [destruct Hin|]. cbn [tot_sh].
+  pose proof (tot_sh_nonneg0 l Hl) as Hnn. destruct Hy as (Hy & _).
+  destruct Hin as [->|Hin]; [qc_lra|]. specialize (IH h Hin). qc_lra.
+Qed.
+
+Section Sells.
+  Variable like : tx.
+  Variable hs : list ahold.
+  Variable X : list tx.
+  Hypothesis Hnd : NoDup (map (fun h => af_id (ah_af h)) hs).
+  Hypothesis Hok : Forall ah_ok hs.
+
+  (* a sale belongs to a holding with its per-share cost *)
+  Definition sell_ok (s : asell) : Prop :=
+    (exists h, find_ah hs (as_af s) = Some h /\ ah_aps h = Some (as_aps s))
+    /\ af_reg (as_af s) = false /\ 0 <= as_gain s /\ 0 <= as_loss s
+    /\ (as_gain s - as_loss s < 0 -> out_after (as_date s) X).
+
+  Lemma find_ah_in af h : find_ah hs af = Some h -> In h hs /\ af_id (ah_af h) = af_id af.
+  Proof. intros H. apply find_some in H as [Hin E]. apply N.eqb_eq in E. split; assumption. Qed.
+
+  Lemma sh_le_tot h : In h hs -> ah_sh h <= tot_sh hs.
+  Proof. apply sh_le_tot0. exact Hok. Qed.
+  Lemma tot_sh_nonneg : 0 <= tot_sh hs.
+  Proof. apply tot_sh_nonneg0. exact Hok. Qed.
+
+  Definition inv_obs (st : pstate) (rest : list asell) : Prop :=
+    forall af, obs st af = obs_hs hs af (fun h => ah_sh h + qn (cnt (af_id (ah_af h)) rest)) (obs st0 af).
+
+  Lemma asells_part : forall rest SL B0 st,
+    Forall (fun t => is_sell (t_act t) = true) SL ->
+    Forall sell_ok rest ->
+    StronglySorted (fun a b => in_gap (as_date a) b) rest -> NoDup (map akey rest) ->
+    Forall (fun s => inert exact (as_date s - window_days) B0) rest ->
+    ps_all st = tot_sh hs + qn (length rest) -> lp st = ps_all st -> inv_obs st rest ->
+    exists ds st',
+      run_part exact (SL ++ B0) st (map (asell_tx like) rest) X
+      = (ds, rev (map (asell_tx like) rest) ++ SL ++ B0, st', None)
+      /\ ps_all st' = tot_sh hs /\ lp st' = ps_all st' /\ inv_obs st' []
+      /\ map d_gain ds = map (fun s => Some (as_gain s - as_loss s)) rest
+      /\ Forall (fun d => d_sfl d = None) ds.
+  Proof.
+    induction rest as [|x rest IH]; intros SL B0 st HS Hso Hsort Hndk Hin Hall Hlp Hinv.
+    - exists [], st. cbn [map run_part rev app length qn] in *. repeat split; auto. rewrite Hall. ring.
+    - apply Forall_cons_iff in Hso as [Hx Hso]. apply StronglySorted_inv in Hsort as [Hsort Hgap].
+      apply Forall_cons_iff in Hin as [Hinx Hin].
+      destruct Hx as ((h & Hfh & Haps) & Hreg & Hg & Hl & HX).
+      destruct (find_ah_in _ _ Hfh) as [Hhin Hid].
+      pose proof (proj1 (Forall_forall _ _) Hok h Hhin) as (Hsh & Hn & Hapsok). rewrite Haps in Hapsok.
+      destruct Hapsok as [_ Hapsnn].
+      set (c := cnt (af_id (ah_af h)) rest).
+      assert (Ecnt : cnt (af_id (ah_af h)) (x :: rest) = S c).
+      { cbn [cnt]. rewrite <- Hid, N.eqb_refl. reflexivity. }
+      set (shx := ah_sh h + (qn c + 1)).
+      assert (Hobsx : obs st (as_af x) = (shx, Some (as_aps x * shx))).
+      { rewrite (Hinv (as_af x)). unfold obs_hs. rewrite Hfh, Ecnt. unfold ah_obs. rewrite Haps. reflexivity. }
+      pose proof (qn_nonneg c) as Hqc. pose proof (qn_nonneg (length rest)) as Hql.
+      assert (Hcl : qn c <= qn (length rest)) by (apply qn_mono, cnt_le_length).
+      pose proof (sh_le_tot h Hhin) as Hshtot. pose proof tot_sh_nonneg as Htot0.
+      cbn [length qn] in Hall.
+      assert (H1 : 1 <= shx) by (unfold shx; qc_lra).
+      assert (Hle : shx <= ps_all st) by (unfold shx; rewrite Hall; qc_lra).
+      assert (Hdfl : forall y, In y rest -> 1 <= fst (obs st (as_af y))).
+      { intros y Hy. rewrite (Hinv (as_af y)). unfold obs_hs.
+        pose proof (proj1 (Forall_forall _ _) Hso y Hy) as ((hy & Hfy & _) & _). rewrite Hfy. cbn [ah_obs fst].
+        destruct (find_ah_in _ _ Hfy) as [Hyin Hyid].
+        pose proof (proj1 (Forall_forall _ _) Hok hy Hyin) as (Hshy & _).
+        assert (Hc1 : (1 <= cnt (af_id (ah_af hy)) (x :: rest))%nat).
+        { rewrite Hyid. cbn [cnt]. destruct (N.eqb _ _); [lia | apply cnt_in; exact Hy]. }
+        pose proof (qn_mono _ _ Hc1) as Hq1. cbn [qn] in Hq1. qc_lra. }
+      assert (Hsfl : as_gain x - as_loss x < 0 ->
+                sfl_info exact (SL ++ B0) (asell_tx like x) 1 (map (asell_tx like) rest ++ X) st = Ok None).
+      { intros Hneg. apply (sfl_none_gen like (SL ++ B0) st x rest X (fun af => fst (obs st af))).
+        - intros af. apply obs_fst.
+        - exact Hlp.
+        - rewrite Hobsx. exact H1.
+        - apply sells_inert; [exact HS | exact Hinx].
+        - exact (HX Hneg).
+        - exact Hgap.
+        - exact Hndk.
+        - exact Hdfl.
+        - rewrite Hall. qc_lra. }
+      destruct (asell_step like (SL ++ B0) (map (asell_tx like) rest ++ X) st x shx Hobsx H1 Hle Hreg Hapsnn Hg Hl Hsfl)
+        as (d & st1 & Ed & Es & Egain & Esfl & Epost & Eall).
+      destruct (set_latest_all _ _ _ _ Es) as [A1 L1].
+      apply NoDup_cons_iff in Hndk as [_ Hndk'].
+      assert (Hinv1 : inv_obs st1 rest).
+      { intros af. rewrite (obs_set _ _ _ _ af Es). unfold obs_hs.
+        destruct (N.eqb_spec (af_id af) (af_id (as_af x))) as [E|E].
+        - assert (Ef : find_ah hs af = Some h) by (unfold find_ah in *; rewrite E; exact Hfh).
+          rewrite Ef. unfold ah_obs. rewrite Haps. cbn [option_map]. rewrite Epost. fold c. unfold shx.
+          f_equal; [ring|]. f_equal. ring.
+        - rewrite (Hinv af). unfold obs_hs. destruct (find_ah hs af) as [h2|] eqn:Ef2; [|reflexivity].
+          destruct (find_ah_in _ _ Ef2) as [_ Hid2]. cbn [cnt].
+          destruct (N.eqb_spec (af_id (as_af x)) (af_id (ah_af h2))) as [E'|_]; [|reflexivity].
+          exfalso. apply E. rewrite <- Hid2, <- E'. reflexivity. }
+      assert (HS' : Forall (fun t => is_sell (t_act t) = true) (asell_tx like x :: SL)) by (constructor; [reflexivity | exact HS]).
+      destruct (IH (asell_tx like x :: SL) B0 st1 HS' Hso Hsort Hndk' Hin
+                  ltac:(rewrite Eall, Hall; ring) ltac:(rewrite A1, L1; reflexivity) Hinv1)
+        as (ds & st' & Erun & Etot & Elp & Einv & Egs & Esf).
+      exists (d :: ds), st'. split; [|split; [exact Etot|split; [exact Elp|split; [exact Einv|split]]]].
+      + cbn [map run_part]. rewrite Ed. change (t_af (asell_tx like x)) with (as_af x). rewrite Es. cbn [run_injected].
+        cbn [app] in Erun. rewrite Erun. cbn [rev]. rewrite <- app_assoc. reflexivity.
+      + cbn [map]. rewrite Egain, Egs. reflexivity.
+      + constructor; assumption.
+  Qed.
+End Sells.
